@@ -290,6 +290,12 @@ func runC19(c *Ctx) {
 			// a failed resumption attempt makes the client throw the cached session away (RFC 5077 3.2)
 			delete(last, s.name)
 		}
+		if !ok && o.CDone {
+			// cut after its handshake: it may have replaced the cached session by its own (another
+			// fingerprint's, perhaps one the next hello cannot offer), or not (TLS 1.3 tickets arrive
+			// later): nothing is required of the next connection
+			delete(last, s.name)
+		}
 		if !ok && !aborted {
 			// (R1)
 			hrr := len(obs.SH) > 0 && obs.SH[0].IsHRR
